@@ -251,3 +251,21 @@ def all_labels(prog):
 
 def is_member(prog, value):
     return any(same_value(v, value) for v in all_labels(prog))
+
+
+# texts that must be rejected; fed *before* another text to expose state that leaks out of a failed compilation
+POISON_TEXTS = [
+    'def p { return "a" weighted 1 } /* open',
+    'def p { /* open return "a" weighted 1 }',
+    'def p { return "a weighted 1 }',
+    'def p { return "a" weighted 1 ; }',
+    "def p {",
+    'def p { if a == { return "a" weighted 1 } }',
+    "",
+]
+
+
+def poison(im, text):
+    """compile a rejected text and discard the outcome (it is judged elsewhere)"""
+    im.construct(text)
+    im.parse(text)
